@@ -10,6 +10,14 @@
 //     property's predicates are evaluated on the result, and the model decides membership in the set of results
 //     possible under some map iteration order.  Frequencies over many real draws are sampled (5 sigma band).
 //  3. service definitions through HandleServiceUpdate.
+//  4. the event-delivery layer: the REAL loops waitForUriUpdates / waitForServiceUpdates (reached through go:linkname,
+//     loop_v2.go / loop_root.go) are fed through a channel of the harness with BURSTS of events - several events already
+//     waiting in the channel when the loop runs again - and with a back-to-back producer; the snapshot published once a
+//     burst is consumed is compared with the fold over ALL events delivered so far (and by the model: CLoop).
+//  5. payloads: every payload text of the event alphabet is given to the real decoder first (json.Unmarshal into d2.Uri):
+//     whether it is rejected, and which weights a rejected payload LEAVES in the struct (none for the errors encoding/json
+//     raises itself; all of them for an unparsable host key in uriSpecificProperties / partitionDesc) - both are
+//     recorded in the event (PMalformed partial) and compared with what the text was built to be.
 package main
 
 import (
@@ -23,6 +31,7 @@ import (
 	"strconv"
 	"strings"
 	"sync"
+	"time"
 
 	"verif/harness/hx"
 )
@@ -42,6 +51,15 @@ type client struct {
 	currentService func(name string) *svcView
 	currentUris    func(cluster string) interface{}
 	resolve        func(name string) (*url.URL, error)
+	// the real waitForUriUpdates / waitForServiceUpdates fed with these events (mode: buffered | producer); returns when
+	// the loop has consumed them all and seen the channel closed
+	uriLoop func(cluster string, evs []rawEv, mode string)
+	svcLoop func(name string, evs []rawEv, mode string)
+}
+
+type rawEv struct {
+	path string
+	data *[]byte
 }
 
 type module struct {
@@ -52,6 +70,7 @@ type module struct {
 	same          func(a, b interface{}) bool
 	choose        func(w interface{}, schemes []string) *url.URL
 	setRand       func(src rand.Source) func()
+	decode        func(data []byte) (left map[string]float64, ok bool) // the real decoder: weights left in the Uri, err == nil
 	urisPath      func(string) string
 	servicesPath  func(string) string
 	handleService func(name, path string, data *[]byte) *svcView
@@ -193,6 +212,7 @@ type event struct {
 	Kind    string  `json:"kind"` // add | update | delete | malformed | weightless
 	Data    *string `json:"data"` // payload text; null for delete
 	Weights []hw    `json:"weights,omitempty"`
+	Partial []hw    `json:"partial,omitempty"` // malformed: the weights the failed decoding left in the struct (observed)
 }
 
 func (e *event) bytes() *[]byte {
@@ -213,7 +233,7 @@ func (e *event) coq() string {
 	case "delete":
 		return "Removed " + p
 	case "malformed":
-		return "Updated " + p + " PMalformed"
+		return "Updated " + p + " (PMalformed " + coqAnn(e.Partial) + ")"
 	case "weightless":
 		return "Updated " + p + " (PDecoded [])"
 	}
@@ -243,16 +263,33 @@ func applyExpected(zk string, exp snap, e *event) snap {
 const cluster = "C"
 const svcName = "svc"
 
+// Payloads the decoder must reject.  "early": encoding/json itself fails, Uri.UnmarshalJSON returns before it touches
+// its receiver.  "late": the JSON is fine and the weights are non-empty and valid, but a host key of a LATER section
+// (or another key of the weights) does not parse as a URL: UnmarshalJSON has filled u.Weights by then.  The two
+// classes alternate in the list (late ones at 1, 3, 7, 9, 13, 15) so that the short exhaustive histories meet both.
 var malformedTexts = []string{
-	`{"weights":{"http://h:80":1}`,     // truncated
-	`not json`,                          // no JSON at all
-	`{"weights":5}`,                     // wrong type
-	`{"weights":{"http://[::1":1}}`,     // host URL does not parse
-	`{"weights":{"http://h:80":"x"}}`,   // weight is not a number
-	`[1,2]`,                             // an array
-	``,                                  // empty data (not nil)
-	`{"weights":{"http://h:80":1}} xyz`, // trailing garbage
+	/* 0 early */ `{"weights":{"http://h:80":1}`, // truncated
+	/* 1 late  */ `{"weights":{"http://ghost:80":1},"uriSpecificProperties":{"http://bad host:80":{"com.linkedin.app.name":"a"}}}`, // blank in a host name
+	/* 2 early */ `not json`,
+	/* 3 late  */ `{"weights":{"http://ghost:80":2,"https://ghost:443":1},"partitionDesc":{"http://h:80/%zz":{"0":{"weight":1}}}}`, // bad percent escape
+	/* 4 early */ `{"weights":5}`, // wrong type
+	/* 5 early */ `{"weights":{"http://[::1":1}}`, // the only weight key does not parse
+	/* 6 early */ `{"weights":{"http://h:80":"x"}}`, // weight is not a number
+	/* 7 late  */ `{"weights":{"https://ghost:443":1},"partitionDesc":{"http://h:port":{"0":{"weight":1}}}}`, // non-numeric port
+	/* 8 early */ `[1,2]`,
+	/* 9 late  */ `{"weights":{"http://ghost:80":1,"http://[::1":1}}`, // a bad key next to a good one (what is left depends on map order)
+	/* 10 early */ ``, // empty data (not nil)
+	/* 11 early */ `{"weights":{"http://h:80":1}} xyz`, // trailing garbage
+	/* 12 early */ `{"weights":{"http://h:80":1},"partitionDesc":{"http://h:80":{"x":{"weight":1}}}}`, // partition number is not an int
+	/* 13 late  */ `{"weights":{"http://ghost:80":1},"uriSpecificProperties":{":":{}}}`, // missing scheme
+	/* 14 early */ `{"weights":{"http://h:80":1},"uriSpecificProperties":7}`,
+	/* 15 late  */ "{\"weights\":{\"http://ghost:80\":0.5},\"clusterName\":\"C\",\"uriSpecificProperties\":{\"http://ghost:80\":{\"com.linkedin.app.version\":\"1\"}}," +
+		"\"partitionDesc\":{\"http://ghost:80\":{\"0\":{\"weight\":1}},\"http://gh\\u007fost:80\":{\"0\":{\"weight\":1}}}}", // control character in a host
 }
+
+// late[i]: malformedTexts[i] was built to fail only after the weights are in place
+var malformedLate = map[int]bool{1: true, 3: true, 7: true, 9: true, 13: true, 15: true}
+
 var weightlessTexts = []string{
 	`{}`,
 	`{"weights":{}}`,
@@ -260,6 +297,15 @@ var weightlessTexts = []string{
 	`null`,
 	`{"uriSpecificProperties":{"http://h:80":{"com.linkedin.app.name":"a"}},"clusterName":"C"}`,
 	`{"weights":null}`,
+	`{"weights":{},"uriSpecificProperties":{"http://h:80":{}},"partitionDesc":{"http://h:80":{"1":{"weight":2}}}}`,
+}
+
+// sections a well-formed announcement may carry besides its weights
+var goodExtras = []string{
+	``,
+	`,"clusterName":"C"`,
+	`,"uriSpecificProperties":{"http://h1:80":{"com.linkedin.app.name":"a","com.linkedin.app.version":"2"}}`,
+	`,"partitionDesc":{"http://h1:80":{"0":{"weight":1},"1":{"weight":0.5}}},"clusterName":"C"`,
 }
 
 type histGen struct {
@@ -267,6 +313,7 @@ type histGen struct {
 	nodes []string
 	addA  [][]hw // per node: the "add" announcement
 	updB  [][]hw // per node: the "update" announcement
+	left  [][]hw // per malformed text: the weights the REAL decoder leaves in the struct when it rejects the text
 }
 
 func newHistGen(m *module) *histGen {
@@ -276,7 +323,26 @@ func newHistGen(m *module) *histGen {
 		g.addA = append(g.addA, []hw{{"http", fmt.Sprintf("h%d:80", i), dy{1, 1}}, {"https", fmt.Sprintf("h%d:443", i), dy{int64(i), 2}}})
 		g.updB = append(g.updB, []hw{{"https", fmt.Sprintf("h%d:443", i), dy{int64(2 + i), 1}}})
 	}
+	for _, t := range malformedTexts {
+		left, _ := m.decode([]byte(t))
+		g.left = append(g.left, hwOfMap(left))
+	}
 	return g
+}
+
+func hwOfMap(m map[string]float64) []hw {
+	out := []hw{}
+	for u, w := range m {
+		sc, rest := splitURL(u)
+		out = append(out, hw{sc, rest, dyOf(w)})
+	}
+	sort.Slice(out, func(i, j int) bool { return out[i].url() < out[j].url() })
+	return out
+}
+
+func (g *histGen) malformed(path string, i int) event {
+	s := malformedTexts[i]
+	return event{Path: path, Kind: "malformed", Data: &s, Partial: g.left[i]}
 }
 
 // event number k (0..14) at depth d: node k/5, kind k%5
@@ -292,8 +358,7 @@ func (g *histGen) ev(k, d int) event {
 	case 2:
 		return event{Path: g.nodes[n], Kind: "delete"}
 	case 3:
-		s := malformedTexts[(n+d)%len(malformedTexts)]
-		return event{Path: g.nodes[n], Kind: "malformed", Data: &s}
+		return g.malformed(g.nodes[n], (n*7+d*3)%len(malformedTexts)) // (node, depth) 1..5 meet 12 of the 16 texts, both classes at depth 1
 	default:
 		s := weightlessTexts[(n+d)%len(weightlessTexts)]
 		return event{Path: g.nodes[n], Kind: "weightless", Data: &s}
@@ -316,7 +381,7 @@ func (g *histGen) randomEv(r *hx.Rand) event {
 	switch r.Intn(6) {
 	case 0, 1:
 		ws := randomAnn(r, 1+r.Intn(2))
-		s := weightsJSON(ws, "")
+		s := weightsJSON(ws, goodExtras[r.Intn(len(goodExtras))])
 		kind := "add"
 		if r.Bool() {
 			kind = "update"
@@ -325,8 +390,7 @@ func (g *histGen) randomEv(r *hx.Rand) event {
 	case 2, 3:
 		return event{Path: path, Kind: "delete"}
 	case 4:
-		s := malformedTexts[r.Intn(len(malformedTexts))]
-		return event{Path: path, Kind: "malformed", Data: &s}
+		return g.malformed(path, r.Intn(len(malformedTexts)))
 	default:
 		s := weightlessTexts[r.Intn(len(weightlessTexts))]
 		return event{Path: path, Kind: "weightless", Data: &s}
@@ -528,6 +592,269 @@ func dfs(m *module, g *histGen, maxDepth int, rep *hx.Report) {
 		rep.CountN(fmt.Sprintf("dfs-hist-len=%d", k), v)
 	}
 	rep.CountN("module="+m.name, total.nodes)
+}
+
+// ------------------------------------------------------------------------------------------------ payloads
+
+type payloadDesc struct {
+	Type   string `json:"type"`
+	Module string `json:"module"`
+	Class  string `json:"class"` // malformed-early | malformed-late | weightless | good
+	Text   string `json:"text"`
+}
+
+// every payload text of the event alphabet through the REAL decoder: is it what it was built to be?
+func runPayload(m *module, d payloadDesc, rep *hx.Report) {
+	left, ok := m.decode([]byte(d.Text))
+	site := m.site + "/defs.go:Uri.UnmarshalJSON"
+	rep.Evaluations++
+	switch d.Class {
+	case "malformed-early", "malformed-late":
+		if ok {
+			rep.Fail("payload-outcome-differs:malformed-accepted", "a payload built to be malformed is accepted by the decoder", site, d, left)
+			return
+		}
+		if len(left) > 0 {
+			rep.Count("payload:rejected:weights-left-in-struct")
+		} else {
+			rep.Count("payload:rejected:struct-untouched")
+		}
+		if d.Class == "malformed-early" && len(left) > 0 {
+			rep.Fail("payload-outcome-differs:early-error-leaves-weights", "a payload encoding/json rejects left weights in the struct", site, d, left)
+		}
+	case "weightless":
+		if !ok || len(left) != 0 {
+			rep.Fail("payload-outcome-differs:weightless", "a weight-less payload is rejected or decodes to weights", site, d, left)
+		}
+		rep.Count("payload:decoded:no-weights")
+	default:
+		if !ok || len(left) == 0 {
+			rep.Fail("payload-outcome-differs:good-rejected", "a well-formed announcement is rejected or decodes to no weights", site, d, left)
+		}
+		rep.Count("payload:decoded:weights")
+	}
+}
+
+func payloadCases(m *module, g *histGen, rep *hx.Report) {
+	lateSeen := 0
+	for i, t := range malformedTexts {
+		cl := "malformed-early"
+		if malformedLate[i] {
+			cl = "malformed-late"
+		}
+		runPayload(m, payloadDesc{"payload", m.name, cl, t}, rep)
+		if len(g.left[i]) > 0 {
+			lateSeen++
+		}
+	}
+	if lateSeen == 0 {
+		// the class of rejected payloads that leave weights behind must be exercised (otherwise "malformed updates are
+		// ignored" is only checked on payloads that are indistinguishable from weight-less ones)
+		rep.Fail("payload-class-missing:rejected-with-weights", "no malformed payload of the alphabet leaves weights in the struct any more: "+
+			"the harness no longer exercises that class", m.site+"/defs.go:Uri.UnmarshalJSON", payloadDesc{"payload", m.name, "malformed-late", malformedTexts[1]}, nil)
+	}
+	for _, t := range weightlessTexts {
+		runPayload(m, payloadDesc{"payload", m.name, "weightless", t}, rep)
+	}
+	for n := range g.addA {
+		for _, x := range goodExtras {
+			runPayload(m, payloadDesc{"payload", m.name, "good", weightsJSON(g.addA[n], x)}, rep)
+			runPayload(m, payloadDesc{"payload", m.name, "good", weightsJSON(g.updB[n], x)}, rep)
+		}
+	}
+}
+
+// ------------------------------------------------------------------------------------------------ the event loops
+
+type loopDesc struct {
+	Type   string    `json:"type"`
+	Module string    `json:"module"`
+	Zk     string    `json:"zk"`
+	Mode   string    `json:"mode"`   // buffered: a burst is waiting in the channel before the loop runs; producer: back-to-back sends
+	Bursts [][]event `json:"bursts"` // the event history, cut into the bursts the loop receives
+	Snaps  []snap    `json:"published,omitempty"`
+}
+
+const loopDeadline = 60 // seconds; the loop handles a burst in microseconds
+
+// run fn in its own goroutine; false when it has not returned within the deadline (a loop that no longer terminates
+// when its channel is closed must not hang the check)
+func withDeadline(fn func()) (finished bool, pv interface{}) {
+	done := make(chan interface{}, 1)
+	go func() {
+		defer func() { done <- recover() }()
+		fn()
+	}()
+	select {
+	case pv = <-done:
+		return true, pv
+	case <-time.After(loopDeadline * time.Second):
+		return false, nil
+	}
+}
+
+func rawOf(evs []event) []rawEv {
+	out := make([]rawEv, len(evs))
+	for i := range evs {
+		out[i] = rawEv{evs[i].Path, evs[i].bytes()}
+	}
+	return out
+}
+
+// the bursts through the real waitForUriUpdates; after each burst the published snapshot must be the fold of ALL events
+// delivered so far, and every snapshot published earlier must still read as it did
+func runLoop(m *module, d loopDesc, rep *hx.Report, sh *hx.Shards) {
+	c := m.newClient(cluster)
+	site := m.site + "/client.go:waitForUriUpdates"
+	exp := snap{}
+	w0 := c.currentUris(cluster)
+	caps := []capture{{w0, m.inspect(w0), 0}}
+	var snaps []snap
+	delivered, maxBurst := 0, 0
+	d.Snaps = nil
+	failed := false
+	for bi, burst := range d.Bursts {
+		fin, pv := withDeadline(func() { c.uriLoop(cluster, rawOf(burst), d.Mode) })
+		if !fin {
+			rep.Fail("loop-hangs", "waitForUriUpdates did not return after its channel was closed", site, d, nil)
+			return
+		}
+		if pv != nil {
+			rep.Fail("loop-panic", "waitForUriUpdates panicked", site, d, fmt.Sprint(pv))
+			return
+		}
+		for i := range burst {
+			exp = applyExpected(d.Zk, exp, &burst[i])
+			rep.Count("loop-event=" + burst[i].Kind)
+		}
+		delivered += len(burst)
+		if len(burst) > maxBurst {
+			maxBurst = len(burst)
+		}
+		w := c.currentUris(cluster)
+		if w == nil {
+			rep.Fail("loop-unpublished", "no snapshot is published for the cluster after a burst", site, d, nil)
+			return
+		}
+		cur := m.inspect(w)
+		if !snapEqual(cur, exp) && !failed {
+			failed = true
+			sig := "loop-fold-mismatch:one-event-at-a-time"
+			if len(burst) > 1 {
+				sig = "loop-fold-mismatch:burst"
+			}
+			rep.Fail(sig, fmt.Sprintf("after burst %d (%d events, %d delivered in all) the published announcements are not the fold of all delivered events",
+				bi+1, len(burst), delivered), site, d, map[string]interface{}{"published": cur, "fold": exp})
+		}
+		for _, cp := range caps {
+			if now := m.inspect(cp.w); !snapEqual(now, cp.content) {
+				rep.Fail("loop-snapshot-mutated", fmt.Sprintf("the snapshot published after burst %d changed while burst %d was consumed", cp.at, bi+1), site, d,
+					map[string]interface{}{"captured": cp.content, "now": now})
+			}
+		}
+		caps = append(caps, capture{w, cur, bi + 1})
+		snaps = append(snaps, cur)
+		rep.Count(fmt.Sprintf("loop-burst-len=%d", len(burst)))
+	}
+	rep.Evaluations++
+	rep.Count("module=" + m.name)
+	rep.Count("loop-mode=" + d.Mode)
+	rep.Count(fmt.Sprintf("loop-bursts=%d", len(d.Bursts)))
+	key, _ := json.Marshal([]interface{}{d.Mode, d.Bursts})
+	rep.Distinct(m.name+"loop"+string(key), maxBurst > 1 && delivered > maxBurst)
+	if maxBurst > 2 && len(d.Bursts) > 1 {
+		rep.Sample(d)
+	}
+	if sh != nil {
+		d.Snaps = snaps
+		bs2 := make([]string, len(d.Bursts))
+		for i, b := range d.Bursts {
+			es := make([]string, len(b))
+			for j := range b {
+				es[j] = b[j].coq()
+			}
+			bs2[i] = "[" + strings.Join(es, ";") + "]"
+		}
+		ss := make([]string, len(snaps))
+		for i := range snaps {
+			ss[i] = coqSnap(snaps[i])
+		}
+		sh.Add("CLoop "+bs(d.Zk)+" ["+strings.Join(bs2, ";")+"] ["+strings.Join(ss, ";")+"]", d)
+	}
+}
+
+// all ways of cutting a history into consecutive non-empty bursts
+func compositions(evs []event) [][][]event {
+	n := len(evs)
+	if n == 0 {
+		return nil
+	}
+	var out [][][]event
+	for mask := 0; mask < 1<<uint(n-1); mask++ {
+		var bursts [][]event
+		start := 0
+		for i := 1; i < n; i++ {
+			if mask&(1<<uint(i-1)) != 0 {
+				bursts = append(bursts, evs[start:i])
+				start = i
+			}
+		}
+		bursts = append(bursts, evs[start:])
+		out = append(out, bursts)
+	}
+	return out
+}
+
+func loopCases(m *module, g *histGen, r *hx.Rand, exhLen, exhModel, nRand int, rep *hx.Report, sh *hx.Shards) {
+	// (4a) exhaustive: every history over the 15-event alphabet up to exhLen, cut into bursts in every way, each burst
+	// waiting in the channel before the loop runs; shortest first.  The model sees those up to exhModel.
+	for n := 1; n <= exhLen; n++ {
+		var rec func(acc []event)
+		rec = func(acc []event) {
+			if len(acc) == n {
+				evs := append([]event{}, acc...)
+				for _, bursts := range compositions(evs) {
+					s := sh
+					if n > exhModel {
+						s = nil
+					}
+					runLoop(m, loopDesc{Type: "loop", Module: m.name, Zk: g.zk, Mode: "buffered", Bursts: bursts}, rep, s)
+				}
+				return
+			}
+			for k := 0; k < 15; k++ {
+				rec(append(acc, g.ev(k, len(acc)+1)))
+			}
+		}
+		rec(nil)
+	}
+	// (4b) seeded longer histories with the extras, random cuts; one in five through an unbuffered channel with a
+	// back-to-back producer (what the tree cache does)
+	for i := 0; i < nRand; i++ {
+		n := 3 + r.Intn(8)
+		evs := make([]event, n)
+		for j := range evs {
+			if r.Chance(50) {
+				evs[j] = g.ev(r.Intn(15), 1+r.Intn(5))
+			} else {
+				evs[j] = g.randomEv(r)
+			}
+		}
+		var bursts [][]event
+		start := 0
+		for j := 1; j < n; j++ {
+			if r.Chance(35) {
+				bursts = append(bursts, evs[start:j])
+				start = j
+			}
+		}
+		bursts = append(bursts, evs[start:])
+		mode := "buffered"
+		if r.Chance(20) {
+			mode = "producer"
+		}
+		runLoop(m, loopDesc{Type: "loop", Module: m.name, Zk: g.zk, Mode: mode, Bursts: bursts}, rep, sh)
+	}
 }
 
 // ------------------------------------------------------------------------------------------------ selection
@@ -961,6 +1288,8 @@ type svcDesc struct {
 	Module string     `json:"module"`
 	Events []svcEvent `json:"events"`
 	Final  *svcView   `json:"final"`
+	Cuts   []bool     `json:"cuts,omitempty"` // svcloop: a new burst starts before event i
+	Mode   string     `json:"mode,omitempty"`
 }
 
 func svcEvents(m *module) []svcEvent {
@@ -1011,28 +1340,89 @@ func runService(m *module, evs []svcEvent, rep *hx.Report, sh *hx.Shards) {
 	rep.Count(fmt.Sprintf("svc-len=%d", len(evs)))
 	key, _ := json.Marshal(evs)
 	rep.Distinct(m.name+"svc"+string(key), len(evs) >= 2)
-	if sh != nil {
-		es := make([]string, len(evs))
-		for i, e := range evs {
-			switch {
-			case e.Data == nil:
-				es[i] = "Stce " + bs(e.Path) + " None"
-			case e.Kind == "malformed":
-				es[i] = "Stce " + bs(e.Path) + " (Some (SMalformed " + coqSvc(e.Decoded) + "))"
-			default:
-				dec := e.Decoded
-				if dec == nil {
-					dec = &svcView{"X", []string{"ftp"}}
-				}
-				es[i] = "Stce " + bs(e.Path) + " (Some (SDecoded " + coqSvc(dec) + "))"
-			}
-		}
-		fin := "None"
-		if d.Final != nil {
-			fin = "(Some " + coqSvc(d.Final) + ")"
-		}
-		sh.Add("CSvc "+bs(m.servicesPath(svcName))+" ["+strings.Join(es, ";")+"] "+fin, d)
+	addSvcCase(m, evs, d, sh)
+}
+
+func addSvcCase(m *module, evs []svcEvent, d svcDesc, sh *hx.Shards) {
+	if sh == nil {
+		return
 	}
+	es := make([]string, len(evs))
+	for i, e := range evs {
+		switch {
+		case e.Data == nil:
+			es[i] = "Stce " + bs(e.Path) + " None"
+		case e.Kind == "malformed":
+			es[i] = "Stce " + bs(e.Path) + " (Some (SMalformed " + coqSvc(e.Decoded) + "))"
+		default:
+			dec := e.Decoded
+			if dec == nil {
+				dec = &svcView{"X", []string{"ftp"}}
+			}
+			es[i] = "Stce " + bs(e.Path) + " (Some (SDecoded " + coqSvc(dec) + "))"
+		}
+	}
+	fin := "None"
+	if d.Final != nil {
+		fin = "(Some " + coqSvc(d.Final) + ")"
+	}
+	sh.Add("CSvc "+bs(m.servicesPath(svcName))+" ["+strings.Join(es, ";")+"] "+fin, d)
+}
+
+// the same histories through the REAL waitForServiceUpdates, cut into bursts (cuts[i]: a new burst starts before event i)
+func runServiceLoop(m *module, evs []svcEvent, cuts []bool, mode string, rep *hx.Report, sh *hx.Shards) {
+	c := m.newClient(cluster)
+	d := svcDesc{Type: "svcloop", Module: m.name, Events: evs, Cuts: cuts, Mode: mode}
+	site := m.site + "/client.go:waitForServiceUpdates"
+	var lastGood *svcView
+	var burst []rawEv
+	flush := func() bool {
+		if len(burst) == 0 {
+			return true
+		}
+		b := burst
+		burst = nil
+		fin, pv := withDeadline(func() { c.svcLoop(svcName, b, mode) })
+		if !fin {
+			rep.Fail("service-loop-hangs", "waitForServiceUpdates did not return after its channel was closed", site, d, nil)
+			return false
+		}
+		if pv != nil {
+			rep.Fail("service-loop-panic", "waitForServiceUpdates panicked", site, d, fmt.Sprint(pv))
+			return false
+		}
+		if after := c.currentService(svcName); !svcEqual(after, lastGood) {
+			rep.Fail("service-loop-not-last-write", "after a burst of service events the definition in force is not the last well-formed one of all delivered events",
+				site, d, after)
+			return false
+		}
+		return true
+	}
+	for i, e := range evs {
+		if i < len(cuts) && cuts[i] && !flush() {
+			return
+		}
+		var data *[]byte
+		if e.Data != nil {
+			b := []byte(*e.Data)
+			data = &b
+		}
+		burst = append(burst, rawEv{e.Path, data})
+		if e.Kind == "good" {
+			lastGood = e.Decoded
+		}
+		rep.Count("svcloop-event=" + e.Kind)
+	}
+	if !flush() {
+		return
+	}
+	d.Final = c.currentService(svcName)
+	rep.Evaluations++
+	rep.Count("module=" + m.name)
+	rep.Count("svcloop-mode=" + mode)
+	key, _ := json.Marshal([]interface{}{evs, cuts, mode})
+	rep.Distinct(m.name+"svcloop"+string(key), len(evs) >= 2)
+	addSvcCase(m, evs, d, sh)
 }
 
 func svcEqual(a, b *svcView) bool {
@@ -1058,6 +1448,17 @@ func serviceCases(m *module, maxLen int, rep *hx.Report, sh *hx.Shards) {
 		rec = func(acc []svcEvent) {
 			if len(acc) == n {
 				runService(m, append([]svcEvent{}, acc...), rep, sh)
+				// the event-delivery layer: the whole history as one burst, and cut before every / every other event
+				h := append([]svcEvent{}, acc...)
+				one, each, alt := make([]bool, n), make([]bool, n), make([]bool, n)
+				for i := range h {
+					each[i], alt[i] = true, i%2 == 0
+				}
+				runServiceLoop(m, h, one, "buffered", rep, sh)
+				if n > 1 {
+					runServiceLoop(m, h, each, "buffered", rep, nil)
+					runServiceLoop(m, h, alt, "producer", rep, nil)
+				}
 				return
 			}
 			for _, e := range evs {
@@ -1082,8 +1483,12 @@ func main() {
 		"(every prefix is an evaluation; old snapshots re-inspected after every event), plus exhaustive short and seeded longer histories (with root-path and " +
 		"outside-prefix events, random payload variants) that are also given to the model; (2) selections: announcement sets (1-3 znodes, 1-2 hosts each, http/https, dyadic " +
 		"weights incl. 0) x 9 prioritized-scheme lists x injected draws (0, all interval boundaries and their neighbours, extremes, seeded), 3 repetitions each " +
-		"(Go map order varies); frequencies over many real draws; (3) service-definition histories. Both module generations. " +
-		"non-trivial = history with at least one effective write and at least one ignored or delete event / selection with at least 2 eligible entries / service history of length >= 2; " +
+		"(Go map order varies); frequencies over many real draws; (3) service-definition histories; (4) the REAL loops waitForUriUpdates / waitForServiceUpdates fed " +
+		"through a channel with bursts: every history over the event alphabet up to the stated length cut into bursts in every way (each burst waiting in the channel " +
+		"before the loop runs again), seeded longer histories with random cuts, one in five through an unbuffered channel with a back-to-back producer; (5) every " +
+		"payload text through the real decoder (malformed payloads: 10 that encoding/json rejects, 6 that fail after the weights were stored). Both module generations. " +
+		"non-trivial = history with at least one effective write and at least one ignored or delete event / selection with at least 2 eligible entries / service history of length >= 2 / " +
+		"loop run with a burst of at least 2 events and at least one more burst; " +
 		"distinct by (module, full input)")
 	mods := []*module{moduleV2(), moduleRoot()}
 	for _, sc := range []string{"http", "https", "ftp", "gopher"} {
@@ -1137,6 +1542,18 @@ func main() {
 				var d freqDesc
 				must(json.Unmarshal(rp.Case, &d))
 				runFrequency(m, d, rep)
+			case "loop":
+				var d loopDesc
+				must(json.Unmarshal(rp.Case, &d))
+				runLoop(m, d, rep, sh)
+			case "payload":
+				var d payloadDesc
+				must(json.Unmarshal(rp.Case, &d))
+				runPayload(m, d, rep)
+			case "svcloop":
+				var d svcDesc
+				must(json.Unmarshal(rp.Case, &d))
+				runServiceLoop(m, d.Events, d.Cuts, d.Mode, rep, sh)
 			}
 		}
 		sh.Close()
@@ -1147,11 +1564,15 @@ func main() {
 
 	r := hx.NewRand(cfg.Seed)
 	dfsDepth, exhModel, nRandHist, nSets, nFreq, svcLen := 5, 3, 6000, 150, 20000, 3
+	loopExh, loopExhModel, nRandLoop := 3, 2, 1500
 	if cfg.Thorough() {
 		dfsDepth, exhModel, nRandHist, nSets, nFreq, svcLen = 6, 4, 30000, 400, 200000, 4
+		loopExh, loopExhModel, nRandLoop = 4, 3, 8000
 	}
 	for _, m := range mods {
 		g := newHistGen(m)
+		// (5) the payload texts of the event alphabet through the real decoder
+		payloadCases(m, g, rep)
 		// (1a) exhaustive short histories, shortest first (so that the first failing histories reported are shortest ones),
 		// also given to the model
 		for n := 1; n <= exhModel; n++ {
@@ -1182,6 +1603,8 @@ func main() {
 			}
 			runHistory(m, g.zk, evs, rep, sh)
 		}
+		// (4) the event loops, fed with bursts
+		loopCases(m, g, r, loopExh, loopExhModel, nRandLoop, rep, sh)
 		// (2) selection
 		selectionCases(m, r, nSets, cfg.Thorough(), rep, sh)
 		frequencyCases(m, cfg.Seed, nFreq, rep)
@@ -1190,6 +1613,8 @@ func main() {
 	}
 	rep.Extra["dfs_depth"] = dfsDepth
 	rep.Extra["exhaustive_model_history_length"] = exhModel
+	rep.Extra["loop_exhaustive_history_length_all_cuts"] = loopExh
+	rep.Extra["loop_exhaustive_model_history_length"] = loopExhModel
 	rep.Exhaustive = false
 	sh.Close()
 	rep.Shards = sh.Files
